@@ -439,3 +439,55 @@ Definition run_doc_type (numpy e : sexp) : sexp :=
   | Some n, Some g => of_opt sx_of_ty (doc_type n g)
   | _, _ => L [T"bad-case"]
   end.
+
+(* ---- docstring sections (Model/DocSections.v) ---- *)
+From SV Require Import Model.DocSections.
+
+Definition ditem_of_sx (x : sexp) : option ditem :=
+  match x with
+  | L [A n; an; A ds; df; na] =>
+    odo an' <- sx_opt gexpr_of_sx an; odo df' <- sx_opt sx_str df; odo na' <- sx_opt gexpr_of_sx na;
+    Some {| di_name := n; di_annot := an'; di_desc := ds; di_default := df'; di_name_annot := na' |}
+  | _ => None
+  end.
+Definition dsection_of_sx (x : sexp) : option dsection :=
+  match x with
+  | L [A t] => if tag_is "other" t then Some SOtherSection else None
+  | L [A t; y] =>
+    if tag_is "text" t then option_map SText (sx_str y)
+    else if tag_is "examples" t then option_map SExamples (sx_listof sx_str y)
+    else if tag_is "params" t then option_map SParams (sx_listof ditem_of_sx y)
+    else if tag_is "attrs" t then option_map SAttrs (sx_listof ditem_of_sx y)
+    else if tag_is "returns" t then option_map SReturns (sx_listof ditem_of_sx y)
+    else None
+  | _ => None
+  end.
+Definition gdoc_of_sx (x : sexp) : option gdoc :=
+  match x with
+  | L [A v; secs] => odo s <- sx_listof dsection_of_sx secs; Some {| gd_value := v; gd_sections := s |}
+  | _ => None
+  end.
+Definition style_of_sx (x : sexp) : option style :=
+  match x with
+  | A t => if tag_is "numpydoc" t then Some Numpy else if tag_is "google" t then Some Google else if tag_is "rest" t then Some Sphinx else None
+  | _ => None
+  end.
+
+(* (doc_sections style kind class_doc func_doc name flags) *)
+Definition run_doc_sections (args : list sexp) : sexp :=
+  match args with
+  | [stx; A kind; cd; fd; A name; f1; f2] =>
+    match style_of_sx stx, sx_opt gdoc_of_sx cd, sx_opt gdoc_of_sx fd, sx_bool f1, sx_bool f2 with
+    | Some st, Some cd', Some fd', Some b1, Some b2 =>
+      if tag_is "general" kind then sx_of_doc (general_doc fd')
+      else if tag_is "param" kind then
+        let p := param_doc st b1 cd' fd' b2 name in L [sx_of_oty (pd_type p); A (pd_default p); A (pd_desc p)]
+      else if tag_is "attr" kind then
+        let a := attr_doc st cd' fd' name in L [sx_of_oty (ad_type a); A (ad_desc a)]
+      else if tag_is "results" kind then
+        match result_docs st fd' with Ok l => L (map sx_of_rdoc l) | Err e => L [T"err"; sx_of_err e] end
+      else L [T"bad-case"]
+    | _, _, _, _, _ => L [T"bad-case"]
+    end
+  | _ => L [T"bad-case"]
+  end.
